@@ -1,7 +1,7 @@
 SPECIFICATION Spec
 CONSTANTS
   N = 4
-  GeomStride = 3
+  GeomStride = 5
 CONSTRAINT Export
 INVARIANT LawSym
 INVARIANT LawMonoAbs
